@@ -88,10 +88,46 @@ def main():
         Ctx.boost = 4          # the code this property is anchored in changed since the fingerprints were taken: search deeper
     ctx = Ctx(pid, tier, seed)
     if a.replay:
-        case = json.load(open(a.replay))
-        r = mod.replay(ctx, case) if hasattr(mod, "replay") else None
-        print(json.dumps(r, indent=1, default=str)); return 0
+        # a replay file names the seed and tier it came from; generation is deterministic in them, so the same case is
+        # regenerated and re-evaluated against the current tree
+        rp = json.load(open(a.replay))
+        rseed, rtier = int(rp.get("seed", seed)), rp.get("tier", tier)
+        want = (rp.get("violation") or {}).get("case")
+        rctx = Ctx(pid, rtier, rseed, widen="widened" in rp.get("kind", ""))
+        rres = mod.run(rctx)
+        same = [v for v in rres.violations if want is not None and v.get("case") == want]
+        print(json.dumps({"replay_of": a.replay, "seed": rseed, "tier": rtier, "case": want,
+                          "reproduced": bool(same), "violation_now": same[0] if same else None,
+                          "other_violations_now": len(rres.violations) - len(same)}, indent=1, default=str)[:6000])
+        print("REPLAY %s" % ("REPRODUCED" if same else "NOT REPRODUCED on the current tree"))
+        return 1 if same else 0
+    cov = None
+    if tier == "thorough" or os.environ.get("VERIF_COVERAGE") == "1":
+        # which statements and branches of the files this property is anchored in did the tie actually execute?
+        try:
+            import coverage
+            files = [os.path.join("/repo", f) for f in json.loads([l for l in open(os.path.join(core.VERIF, "properties.jsonl")) if '"%s"' % pid in l[:12]][0])["anchors"]["files"] if f.startswith("simfile/")]
+            cov = coverage.Coverage(include=files, branch=True, data_file=None)
+            cov.start()
+        except Exception:
+            cov = None
     res = mod.run(ctx)
+    if cov is not None:
+        try:
+            cov.stop()
+            summary = {}
+            for f in files:
+                try:
+                    _, stmts, _, missing, _ = cov.analysis2(f)
+                    an = cov._analyze(f)
+                    nb = an.numbers
+                    summary[os.path.relpath(f, "/repo")] = {"statements": len(stmts), "executed": len(stmts) - len(missing), "missing_lines": missing[:60],
+                                                            "branches": nb.n_branches, "branches_missed": nb.n_missing_branches}
+                except Exception as e:
+                    summary[os.path.relpath(f, "/repo")] = {"error": type(e).__name__}
+            res.stats["impl_coverage_of_anchor_files"] = summary
+        except Exception:
+            pass
 
     def unlisted(vs):
         listed = {f["id"] for f in ctx.findings}
